@@ -166,8 +166,10 @@ pub fn replay_net(case: &Value, rep: &mut Report) {
                                 neurons::maxpool::Maxpool::create(Shape::Single(n_flat), (u("kh"), u("kw")), (u("sh"), u("sw")));
                             }
                         });
+                        // (C08 speaks of the layer being ADDED to a network: what the stand-alone constructor does with such a size
+                        // is only counted, not judged)
                         if direct.is_ok() {
-                            rep.mismatch("C08", "flat_size_not_rejected_by_stand_alone_constructor", &id, json!({"step": i, "kind": kind, "flat": n_flat}), case);
+                            rep.count("stand_alone_constructor_accepts_non_square_flat_size", 1);
                         }
                         let in_block = guarded(|| {
                             let mut n2 = Network::new(Shape::Single(n_flat));
